@@ -5,7 +5,7 @@ P=$(readlink -f "$1"); SEED=${2:-1}; shift; shift 2>/dev/null
 PROPS=${*:-C01 C02 C03 C04 C05 C06 C07 C08 C09 C10 C11 C12 C13 C14 C15 C16 C17 C18 C19 C20}
 D=$(mktemp -d /tmp/bc_XXXXXX); rmdir "$D"
 git -C /repo worktree add -q --detach "$D" HEAD || exit 9
-if ! git -C "$D" apply "$P"; then echo "PATCH DOES NOT APPLY: $P"; git -C /repo worktree remove --force "$D"; exit 9; fi
+if ! git -C "$D" apply "$P" 2>/dev/null && ! { git -C "$D" reset -q --hard; git -C "$D" apply -3 "$P" >/dev/null 2>&1 && [ -z "$(git -C "$D" diff --name-only --diff-filter=U)" ] && git -C "$D" reset -q; }; then echo "PATCH DOES NOT APPLY: $P"; git -C /repo worktree remove --force "$D"; exit 9; fi
 cd "$(dirname "$0")/.."
 bad=0
 for p in $PROPS; do
